@@ -789,6 +789,53 @@ func (r *Run) yield(st *State, fr *Frame, in ssa.Instruction, what string) {
 	}
 }
 
+// checkClosureRequires: a closure with its own contract is handed to something that will run it later
+// (go statement, reflect.MakeFunc, context.AfterFunc): its preconditions over the captured variables must hold now.
+func (r *Run) checkClosureRequires(st *State, fr *Frame, f *Closure, args []Val, in ssa.Instruction, how string) {
+	e := r.e
+	name := e.fnName[f.Fn]
+	blk := e.cs.Funcs[name]
+	if blk == nil || len(blk.All("requires")) == 0 {
+		return
+	}
+	vars := e.contractVars(f.Fn, args)
+	for _, cl := range blk.All("requires") {
+		px, err := parseSpec(cl.Expr)
+		if err != nil {
+			e.fail("%v", err)
+			continue
+		}
+		c := e.specCtx(st, nil)
+		c.entry = vars
+		for k, v := range vars {
+			c.vars[k] = v
+		}
+		for i, fv := range f.Fn.FreeVars {
+			if i < len(f.Binds) {
+				if a, ok := f.Binds[i].(*Addr); ok && a.Kind == ACell {
+					c.vars[fv.Name()] = SV{V: st.Cells[a.Cell], T: a.Cell.Typ}
+					c.vars["fv_"+fv.Name()] = c.vars[fv.Name()]
+				} else if t, ok := f.Binds[i].(T); ok {
+					c.vars[fv.Name()] = SV{V: t, T: fv.Type()}
+				}
+			}
+		}
+		var items []goalItem
+		nerr := len(e.errors)
+		c.splitGoal(px, nil, "", &items)
+		if len(e.errors) > nerr {
+			// the clause speaks about the closure's own parameters: an obligation of whoever calls it, not of the registration
+			e.errors = e.errors[:nerr]
+			e.note("precondition %s/%s concerns the closure's parameters and is not checked where it is registered (%s)", name, cl.Label(), how)
+			continue
+		}
+		for _, it := range items {
+			e.emitWith(st, fmt.Sprintf("%s/requires@%s:%s:%s", e.fnName[fr.Fn], how, name, cl.Label()), it.sub, it.hyps, it.atom, cl.Expr, e.posOf(in), cl.Props, cl)
+		}
+	}
+	e.usedContracts[name] = true
+}
+
 func (r *Run) createdHere(st *State, ch T) bool {
 	for _, o := range st.Fresh {
 		if o.S == ch.S {
@@ -879,40 +926,12 @@ func (r *Run) goStmt(st *State, fr *Frame, x *ssa.Go) []*State {
 		name = e.fnName[f.Fn]
 		r.shareClosure(st, f, "go")
 		// spawn contract: the preconditions of the body must hold where it is started
-		if blk := e.cs.Funcs[name]; blk != nil && len(blk.All("requires")) > 0 {
-			var args []Val
-			for _, a := range x.Call.Args {
-				args = append(args, r.val(st, fr, a))
-			}
-			vars := e.contractVars(f.Fn, args)
-			ord := e.callOrdinal(fr.Fn, x, name)
-			for _, cl := range blk.All("requires") {
-				px, err := parseSpec(cl.Expr)
-				if err != nil {
-					e.fail("%v", err)
-					continue
-				}
-				c := e.specCtx(st, nil)
-				c.entry = vars
-				for k, v := range vars {
-					c.vars[k] = v
-				}
-				// free variables of a spawned closure: current values of the captured cells
-				for i, fv := range f.Fn.FreeVars {
-					if i < len(f.Binds) {
-						if a, ok := f.Binds[i].(*Addr); ok && a.Kind == ACell {
-							c.vars[fv.Name()] = SV{V: st.Cells[a.Cell], T: a.Cell.Typ}
-						}
-					}
-				}
-				var items []goalItem
-				c.splitGoal(px, nil, "", &items)
-				for _, it := range items {
-					e.emitWith(st, fmt.Sprintf("%s/requires@go:%s#%d:%s", e.fnName[fr.Fn], name, ord, cl.Label()), it.sub, it.hyps, it.atom, cl.Expr, e.posOf(x), cl.Props, cl)
-				}
-			}
-			e.usedContracts[name] = true
+		var sargs []Val
+		for _, a := range x.Call.Args {
+			sargs = append(sargs, r.val(st, fr, a))
 		}
+		r.checkClosureRequires(st, fr, f, sargs, x, "go")
+
 	case *BoundMethod:
 		name = f.Name
 	}
